@@ -795,7 +795,7 @@ func findSinkType(params *filterParams, parent ast.Node, kv *ast.KeyValueExpr, e
 			break
 		}
 		for i, rhs := range parent.Rhs {
-			if rhs == e {
+			if astutil.Unparen(rhs) == e {
 				return params.ctx.Types.TypeOf(parent.Lhs[i])
 			}
 		}
